@@ -326,6 +326,9 @@ for c in range(M_PLAN.count(0)):
                     tier='quick' if quick else 'thorough', unwind=14, objbits=12, timeout=900,
                     carriers=[r'FullControlT<.*>::updatePlan', r'C_<.*>::deepUpdatePlans', r'FullControlBaseT<.*>::succeed', r'FullControlBaseT<.*>::fail', r'PlanDataT<.*>::clearStatuses'],
                     case_key='plan/cfg=%d/shape=%d/actor=%d/%s' % (c, shape, actor, 'succeed' if action == 1 else 'fail'))
+for _w in (1, 0):
+    job(id='C.planpay.task.%s' % ('with' if _w else 'without'), tu=M_PLAN.tu, defs={'VM_PLAN_PAYLOAD': None}, entry='step_plan_payload', key=[1, _w], props=['C14', 'C06', 'C01'], quick_for=['C14'], unwind=14, objbits=12, timeout=900,
+        carriers=[r'FullControlT<.*>::updatePlan', r'PayloadPlanT<.*>::append', r'TaskT<int>::TaskT|TaskListT<int.*>::emplace'], case_key='plan task %s payload/cfg=1' % ('with' if _w else 'without'))
 machine_jobs(M_PLAN, upd_kinds_quick=(0,))
 M_PLAN2 = Machine('plan2', 'tier_c/m_plan2.cpp', [-1, 0, 0, 2, 2, 4, 4], ['C', 'L', 'C', 'L', 'C', 'L', 'L'], unwind=16)
 for mark in (0, 1, 2):
